@@ -43,6 +43,41 @@ Theorem C09_plain_roundtrip_tokens_partial qk r sf (its : items) l :
   layout qk r true false false sf its = Ok l →
   ph_from_tokens (layout_tokens qk l ++ [TEnd]) = Ok (PH 1 (uc_of its), false).
 Proof. exact (plain_roundtrip_tokens qk r sf its l). Qed.
+(** the same for any display function with pairwise distinct display strings ('~': the symbols):
+    the tokens evaluate to the container over the display strings *)
+Theorem C09_plain_roundtrip_tokens_display qk r short sf (its : items) (disp : string → string) l :
+  items_wf its → its ≠ [] →
+  Forall (λ nx : string * expo, ∃ z, nx.2 = XInt z) its →
+  (∀ nx, nx ∈ its → display r short nx.1 = Ok (disp nx.1)) →
+  NoDup (map (λ nx : string * expo, disp nx.1) its) →
+  layout qk r true false short sf its = Ok l →
+  ph_from_tokens (layout_tokens qk l ++ [TEnd])
+  = Ok (PH 1 (uc_of (map (λ nx : string * expo, (disp nx.1, nx.2)) its)), false).
+Proof. exact (plain_roundtrip_tokens_gen qk r short sf its disp l). Qed.
+(** … and [_parse_units_as_container]'s name resolution then gives back the unit itself, for long
+    names that resolve to themselves (multiplicative units) … *)
+Theorem C09_long_roundtrip_guarded qk r sf (its : items) l :
+  items_wf its → its ≠ [] →
+  Forall (λ nx : string * expo, ∃ z, nx.2 = XInt z) its →
+  (∀ nx, nx ∈ its → get_name r nx.1 = Ok nx.1 ∧ nx.1 ≠ ""
+                    ∧ (∀ df, r_units r !! nx.1 = Some df → u_multiplicative df = true)) →
+  layout qk r true false false sf its = Ok l →
+  parse_units_tokens r (layout_tokens qk l ++ [TEnd]) = Ok (uc_of its).
+Proof. exact (long_roundtrip_guarded qk r sf its l). Qed.
+(** … and for '~' symbols under the guard that excludes F19: every symbol is read back as its unit
+    (decided by the name-resolution model [get_name]) and no two units share a symbol *)
+Theorem C09_short_roundtrip_guarded qk r sf (its : items) l :
+  items_wf its → its ≠ [] →
+  Forall (λ nx : string * expo, ∃ z, nx.2 = XInt z) its →
+  short_guard r its →
+  layout qk r true false true sf its = Ok l →
+  parse_units_tokens r (layout_tokens qk l ++ [TEnd]) = Ok (uc_of its).
+Proof. exact (short_roundtrip_guarded qk r sf its l). Qed.
+Example C09_short_guard_nonvacuous :
+  let its := [("meter", XInt 1); ("second", XInt (-2)); ("kilogram", XInt 3)] in
+  items_wf its ∧ short_guard default_reg its
+  ∧ full_format_unit as_found default_reg (FCfg "" None SortUnitName) "~C" its = Ok "kg**3*m/s**2".
+Proof. exact short_guard_example. Qed.
 (** D and C are such parameterisations (regenerated parameters) *)
 Example C09_D_C_are_ratio_formats :
   (fp_as_ratio fp_D, fp_single_denominator fp_D, fp_as_ratio fp_C, fp_single_denominator fp_C)
